@@ -250,9 +250,12 @@ def child_behaviour(arg):
             interval = float(given)
             want = 3
             ok = srv.wait_polls(1 + want, timeout=interval * want * 10 + 5)
-            alive = any(t.name == 'Tracepoint Long Poll' and t.is_alive() for t in threading.enumerate())
+            named = [t for t in threading.enumerate() if t.name == 'Tracepoint Long Poll']
+            timer = getattr(getattr(agent, 'poll', None), 'timer', None)
+            thread = getattr(timer, 'thread', None)
+            alive = (any(t.is_alive() for t in named) if named else (thread.is_alive() if thread is not None else None))
             out['behaviour'] = {'timer_alive': alive, 'polls_continue': ok}
-            if not alive:
+            if alive is False:
                 out.update(ok=False, why='the poll timer thread is dead')
             # whether polls keep coming is judged by comparing the two forms (same machine, same watchdog), never by
             # wall-clock gaps: see case_behaviour
